@@ -5,9 +5,10 @@
    coefficient b (eb_curve_opt_b(): a curve property; one enforcing unit per shape, -DC20X_EB_OPTB=RLC_ZERO|RLC_ONE|RLC_TINY|RLC_HUGE).
    The scalar is padded to the order length (k + n or k + 2n); its bits (results of the abstract bn_get_bit) are unconstrained.
        sqr sqr zero swapn [b] rand mul rand mul mul ( mul mul add muln swap^2 sqr muln addd rdcn sqr sqr mul [step b] swap^2 )^bits
-       isz isz mul mul add mul mul add mul sqr add mul add mul inv mul mul add mul add copy copy setdig
-   STRICT reading (default): nothing else may follow - the sign of the scalar is secret.  With -DC20X_EB_SIGNPUB the sign is a second public
-   input g_pub_neg and one `neg` follows when it is set (what the code does; see the report).
+       isz isz mul mul add mul mul add mul sqr add mul add mul inv mul mul add mul add copy copy setdig   add copysec
+   STRICT reading: the SIGN of the scalar is secret too (the abstract bn_sign returns an unconstrained verdict).  The result is negated without
+   branching: one field addition (x + y) and one masked copy dv_copy_sec of the public length RLC_FB_DIGS, whose selector is the secret sign;
+   any conditional negation (eb_neg, or a guarded masked copy) is an unexpected / missing event.
    Pre: k != 0; the result and its successor are finite (z1 != 0 and z2 != 0 after the ladder, i.e. k is not 0 or -1 modulo the order): the
    two exceptional exits are outside the regular path.  Callees are trusted to be constant-time as units. */
 #pragma once
@@ -18,7 +19,7 @@
 #ifndef C20X_EB_OPTB
 #define C20X_EB_OPTB RLC_HUGE
 #endif
-extern size_t g_ev_n; extern int g_ev_bad; extern size_t g_pub_bits; extern int g_pub_neg;
+extern size_t g_ev_n; extern int g_ev_bad; extern size_t g_pub_bits;
 #define XB_SQR 1
 #define XB_MUL 2
 #define XB_ADD 3
@@ -38,6 +39,7 @@ extern size_t g_ev_n; extern int g_ev_bad; extern size_t g_pub_bits; extern int 
 #define XB_ZERO 17
 #define XB_SWAPN 18
 #define XB_NEG 19
+#define XB_COPYSEC 20
 /* the part that depends on the shape of b: set-up (XB_PB events) and ladder step (XB_SB events) */
 #if C20X_EB_OPTB == RLC_ZERO
 #define XB_PB 0
@@ -71,13 +73,9 @@ extern size_t g_ev_n; extern int g_ev_bad; extern size_t g_pub_bits; extern int 
 #define XB_POSTE(j) ((j) <= 1 ? XB_ISZ : (j) == 2 || (j) == 3 ? XB_MUL : (j) == 4 ? XB_ADD : (j) == 5 || (j) == 6 ? XB_MUL : (j) == 7 ? XB_ADD : (j) == 8 ? XB_MUL : \
 	(j) == 9 ? XB_SQR : (j) == 10 ? XB_ADD : (j) == 11 ? XB_MUL : (j) == 12 ? XB_ADD : (j) == 13 ? XB_MUL : (j) == 14 ? XB_INV : (j) == 15 || (j) == 16 ? XB_MUL : \
 	(j) == 17 ? XB_ADD : (j) == 18 ? XB_MUL : (j) == 19 ? XB_ADD : (j) <= 21 ? XB_COPY : XB_SETDIG)
-#ifdef C20X_EB_SIGNPUB
-#define XB_AFTER(k) ((k) == XB_TAIL + XB_POST && g_pub_neg ? XB_NEG : 0)
-#define XB_TOTAL (XB_TAIL + XB_POST + (g_pub_neg ? 1 : 0))
-#else
-#define XB_AFTER(k) 0
-#define XB_TOTAL (XB_TAIL + XB_POST)
-#endif
+/* branch-free negation: add copysec, then nothing */
+#define XB_AFTER(k) ((k) == XB_TAIL + XB_POST ? XB_ADD : (k) == XB_TAIL + XB_POST + 1 ? XB_COPYSEC : 0)
+#define XB_TOTAL (XB_TAIL + XB_POST + 2)
 #define XB_EXPECT(k) ((k) < XB_PRE ? XB_PREE(k) : (k) < XB_TAIL ? XB_STEPE(((k) - XB_PRE) % XB_STEP) : (k) < XB_TAIL + XB_POST ? XB_POSTE((k) - XB_TAIL) : XB_AFTER(k))
 #define XB_LOGGED(ev) (g_ev_n == __CPROVER_old(g_ev_n) + 1 && g_ev_bad == (__CPROVER_old(g_ev_bad) | (XB_EXPECT(__CPROVER_old(g_ev_n)) != (ev))))
 #define VC_EB(p) __CPROVER_object_upto(p, sizeof(eb_st))
@@ -114,6 +112,11 @@ __CPROVER_requires(digits <= RLC_BN_SIZE)
 VC_ASSIGNS(__CPROVER_object_upto(c, digits * sizeof(dig_t)), __CPROVER_object_upto(a, digits * sizeof(dig_t)), g_ev_n, g_ev_bad)
 __CPROVER_ensures(XB_LOGGED(__CPROVER_old(g_ev_n) == 3 ? XB_SWAPN : XB_SWAP) && (__CPROVER_old(g_ev_n) == 3 || digits == RLC_FB_DIGS));
 void eb_neg_projc_xb(eb_t r, const eb_t p) VC_ASSIGNS(VC_EB(r), g_ev_n, g_ev_bad) __CPROVER_ensures(XB_LOGGED(XB_NEG));
+/* masked copy: the length is public and must be RLC_FB_DIGS (a different length is an unexpected event); the selector `bit` is secret */
+void dv_copy_sec_xb(dig_t *c, const dig_t *a, size_t digits, dig_t bit)
+__CPROVER_requires(digits <= RLC_FB_DIGS)
+VC_ASSIGNS(__CPROVER_object_upto(c, digits * sizeof(dig_t)), g_ev_n, g_ev_bad)
+__CPROVER_ensures(XB_LOGGED(digits == RLC_FB_DIGS ? XB_COPYSEC : 0));
 /* not field-level: arbitrary results, exact frames */
 void eb_set_infty_xb(eb_t p) VC_ASSIGNS(VC_EB(p));
 dig_t *eb_curve_get_b_xb(void) __CPROVER_requires(1) VC_ASSIGNS_NONE __CPROVER_ensures(__CPROVER_is_fresh(__CPROVER_return_value, RLC_FB_DIGS * sizeof(dig_t)));
@@ -124,11 +127,8 @@ void bn_abs_xb(bn_t c, const bn_t a) VC_ASSIGNS(VC_BNF(c)) __CPROVER_ensures(c->
 void bn_add_xb(bn_t c, const bn_t a, const bn_t b) VC_ASSIGNS(VC_BNF(c)) __CPROVER_ensures(c->used >= 1 && c->used <= RLC_BN_SIZE);
 int bn_get_bit_xb(const bn_t a, uint_t bit) VC_ASSIGNS_NONE __CPROVER_ensures(__CPROVER_return_value == 0 || __CPROVER_return_value == 1);
 int bn_is_zero_xb(const bn_t a) VC_ASSIGNS_NONE __CPROVER_ensures(__CPROVER_return_value == 0);         /* pre: k != 0 */
-#ifdef C20X_EB_SIGNPUB
-int bn_sign_xb(const bn_t a) VC_ASSIGNS_NONE __CPROVER_ensures(__CPROVER_return_value == (g_pub_neg ? RLC_NEG : RLC_POS));
-#else
+/* the sign is secret: unconstrained verdict */
 int bn_sign_xb(const bn_t a) VC_ASSIGNS_NONE __CPROVER_ensures(__CPROVER_return_value == RLC_POS || __CPROVER_return_value == RLC_NEG);
-#endif
 
 void eb_mul_lodah(eb_t r, const eb_t p, const bn_t k)
 __CPROVER_requires(__CPROVER_is_fresh(r, sizeof(eb_st)) && __CPROVER_is_fresh(p, sizeof(eb_st)) && __CPROVER_is_fresh(k, sizeof(bn_st)))
